@@ -25,10 +25,12 @@ func init() {
 
 // setInfo is the Go-side reading of one declaration set (computed once; layouts only permute).
 type setInfo struct {
-	pkg       *goPkg
-	expected  map[string][]int // documented name -> units
-	unitOfDec [][]int          // declSet unit (declaration text) -> goPkg units
-	err       string
+	pkg        *goPkg
+	expected   map[string][]int // documented name -> units
+	unitOfDec  [][]int          // declSet unit (declaration text) -> goPkg units
+	tcRelevant bool             // a signature / constant type / global type names a type of the package
+	shapes     []string         // per goPkg unit: kind, refined for named types and aliases (coverage table)
+	err        string
 }
 
 type c04Job struct {
@@ -37,6 +39,7 @@ type c04Job struct {
 	lay    layout
 	rel    string
 	batch  int
+	tc     bool   // translated with -typecheck (typing theorems mention the types of signatures and constants)
 	status string // "", rejected, load-failed, crashed, no-output
 	errTxt string
 }
@@ -77,12 +80,20 @@ func runC04(r *core.Run) (bool, string) {
 			skip[a] = true
 		}
 	}
+	var tcJobs []*c04Job
 	for _, ds := range directed {
 		if rejectedAtoms[ds.Atoms[0]] {
 			continue
 		}
-		lays := exhaustiveLayouts(len(ds.Units))
-		r.Count("layouts_exhaustive_permutations", int64(len(lays)))
+		var lays []layout
+		if ds.Family == "" {
+			lays = exhaustiveLayouts(len(ds.Units))
+			r.Count("layouts_exhaustive_permutations", int64(len(lays)))
+		} else {
+			lays = familyLayouts(len(ds.Units))
+			r.Count("layouts_of_generated_families/"+ds.Family, int64(len(lays)))
+			r.Count("sets_of_generated_families/"+ds.Family, 1)
+		}
 		addJobs(ds, lays)
 	}
 	rng := core.NewRng(r.Seed, "c04-random")
@@ -121,18 +132,29 @@ func runC04(r *core.Run) (bool, string) {
 	infos := map[*declSet]*setInfo{}
 	var imu sync.Mutex
 	srcImp := newSourceImporter()
+	helperImp, herr := c04HelperImporter()
+	if herr != nil {
+		return false, "helper packages do not type-check: " + herr.Error()
+	}
+	for name, files := range c04HelperPkgs {
+		writePkg(anDir, name, files)
+	}
 	core.Parallel(len(sets), 8, func(i int) {
 		ds := sets[i]
-		if len(ds.Imports) > 0 {
+		if len(ds.Imports) > 0 && !ds.Helper {
 			return
 		}
-		si := c04Analyze(anDir, ds, nil)
+		var imp types.ImporterFrom
+		if ds.Helper {
+			imp = helperImp
+		}
+		si := c04Analyze(anDir, ds, imp)
 		imu.Lock()
 		infos[ds] = si
 		imu.Unlock()
 	})
 	for _, ds := range sets {
-		if len(ds.Imports) > 0 { // the source importer runs `go list` in the module and is not concurrency-safe
+		if len(ds.Imports) > 0 && !ds.Helper { // the source importer runs `go list` in the module and is not concurrency-safe
 			infos[ds] = c04Analyze(anDir, ds, srcImp)
 		}
 	}
@@ -160,19 +182,35 @@ func runC04(r *core.Run) (bool, string) {
 	}
 	r.Set("declaration_sets", len(sets))
 
+	// ---- the directed sets in which a typing theorem would mention a same-package type are translated
+	// again with -typecheck (the theorems exist for functions, methods, constants and globals only)
+	for _, ds := range sets {
+		si := infos[ds]
+		if !strings.HasPrefix(ds.Origin, "directed:") || si.err != "" || !si.tcRelevant || rejectedAtoms[ds.Atoms[0]] {
+			continue
+		}
+		tl := typecheckLayouts(len(ds.Units))
+		for k, l := range tl {
+			tcJobs = append(tcJobs, &c04Job{set: ds, k: k, lay: l, tc: true, rel: fmt.Sprintf("%s_t%04d", ds.ID, k)})
+		}
+		r.Count("layouts_translated_with_typecheck", int64(len(tl)))
+		r.Count("sets_translated_with_typecheck", 1)
+	}
+	jobs = append(jobs, tcJobs...)
+
 	// ---- batches: one scratch module per batch, one goose invocation each
 	const perBatch = 250
 	nb := 0
 	{
 		// shipped sets need their sibling packages; keep them in their own batches
 		cur, n := -1, perBatch
-		lastShipped := false
+		lastShipped, lastTc := false, false
 		for _, j := range jobs {
 			sh := strings.HasPrefix(j.set.Origin, "shipped:")
-			if n >= perBatch || sh != lastShipped {
+			if n >= perBatch || sh != lastShipped || j.tc != lastTc {
 				cur++
 				n = 0
-				lastShipped = sh
+				lastShipped, lastTc = sh, j.tc
 			}
 			j.batch = cur
 			n++
@@ -191,17 +229,26 @@ func runC04(r *core.Run) (bool, string) {
 			r.Inconclusive("scratch-write-failed")
 			return
 		}
+		wroteExtra := map[string]bool{}
+		var flags []string
 		for _, j := range batchJobs[b] {
 			if infos[j.set].err != "" {
 				j.status = "no-oracle"
 				continue
 			}
+			if j.tc {
+				flags = []string{"-typecheck"}
+			}
 			writePkg(dir, j.rel, j.set.render(j.lay))
 			for rel, files := range j.set.Extra {
+				if j.set.Helper && wroteExtra[rel] {
+					continue
+				}
+				wroteExtra[rel] = true
 				writePkg(dir, rel, files)
 			}
 		}
-		res := runGoose(bin, dir, filepath.Join(dir, "out"), 10*time.Minute, nil, nil, "./...")
+		res := runGoose(bin, dir, filepath.Join(dir, "out"), 10*time.Minute, nil, flags, "./...")
 		r.Count("goose_invocations", 1)
 		if res.TimedOut {
 			r.Inconclusive("goose-watchdog")
@@ -218,7 +265,7 @@ func runC04(r *core.Run) (bool, string) {
 				if j.status != "" {
 					continue
 				}
-				one := runGoose(bin, dir, filepath.Join(dir, "out"), 2*time.Minute, nil, nil, "./"+j.rel)
+				one := runGoose(bin, dir, filepath.Join(dir, "out"), 2*time.Minute, nil, flags, "./"+j.rel)
 				r.Count("goose_invocations", 1)
 				if isCrash(one) || one.TimedOut {
 					j.status = "crashed"
@@ -255,9 +302,16 @@ func runC04(r *core.Run) (bool, string) {
 		if si.err != "" {
 			return
 		}
-		var ref map[string][]string
-		var refJob *c04Job
+		refs := map[bool]map[string][]string{}
+		refJobs := map[bool]*c04Job{}
+		cells := c04Cells{}
+		defer func() {
+			for _, k := range sortedCellKeys(cells) {
+				r.Count(k, cells[k])
+			}
+		}()
 		for _, j := range bySet[ds] {
+			ref, refJob := refs[j.tc], refJobs[j.tc]
 			switch j.status {
 			case "crashed":
 				// a layout (order of declarations / split over files) of an accepted package on which goose
@@ -298,7 +352,10 @@ func runC04(r *core.Run) (bool, string) {
 			r.Eval(1)
 			r.Count("layouts_judged/"+strings.SplitN(ds.Origin, ":", 2)[0], 1)
 			r.Count(fmt.Sprintf("layouts_by_file_count/%d", len(j.lay.Files)), 1)
-			cur := c04Judge(r, ds, si, j, defs, string(vb))
+			if j.tc {
+				r.Count("layouts_judged_with_typecheck", 1)
+			}
+			cur := c04Judge(r, ds, si, j, defs, string(vb), cells)
 			if len(j.lay.Files) > 1 {
 				// noted, not judged (the statement does not fix the order of independent definitions):
 				// goose prints one (* file.go *) comment per file in its processing order
@@ -319,11 +376,11 @@ func runC04(r *core.Run) (bool, string) {
 				}
 			}
 			if ref == nil {
-				ref, refJob = cur, j
+				refs[j.tc], refJobs[j.tc] = cur, j
 			} else {
 				c04Metamorphic(r, ds, refJob, j, ref, cur, batchDir)
 			}
-			if j.k == 1 || j.k == 0 && len(bySet[ds]) == 1 {
+			if !j.tc && (j.k == 1 || j.k == 0 && len(bySet[ds]) == 1) {
 				var names []string
 				for _, d := range defs {
 					names = append(names, d.Name)
@@ -440,6 +497,8 @@ func c04Analyze(anDir string, ds *declSet, srcImp types.ImporterFrom) *setInfo {
 	p.analyzeDeps(srcImp)
 	si.pkg = p
 	si.expected = p.expectedNames()
+	si.shapes = unitShapes(p)
+	si.tcRelevant = typecheckRelevant(p)
 	for _, d := range p.Decls {
 		si.unitOfDec = append(si.unitOfDec, d.Units)
 	}
@@ -462,10 +521,16 @@ func relOrder(fileRank, pos []int, user, target int) string {
 }
 
 // c04Judge applies oracles (1) and (2) to one layout and returns name -> bodies for oracle (3).
-func c04Judge(r *core.Run, ds *declSet, si *setInfo, j *c04Job, defs []vdef, vtext string) map[string][]string {
+func c04Judge(r *core.Run, ds *declSet, si *setInfo, j *c04Job, defs []vdef, vtext string, cells c04Cells) map[string][]string {
 	p := si.pkg
 	detail := func(extra map[string]interface{}) map[string]interface{} {
 		m := map[string]interface{}{"set": ds.ID, "origin": ds.Origin, "atoms": ds.Atoms, "layout": j.lay.Desc, "files": ds.render(j.lay), "emitted": vtext}
+		if j.tc {
+			m["goose_flags"] = "-typecheck"
+		}
+		if len(ds.Extra) > 0 && ds.Helper {
+			m["imported_helper_packages"] = ds.Extra
+		}
 		for k, v := range extra {
 			m[k] = v
 		}
@@ -480,15 +545,23 @@ func c04Judge(r *core.Run, ds *declSet, si *setInfo, j *c04Job, defs []vdef, vte
 	bodies := map[string][]string{}
 	for i, d := range defs {
 		defIdx[d.Name] = append(defIdx[d.Name], i)
-		bodies[d.Name] = append(bodies[d.Name], d.Kind+" "+strings.Join(d.TypeParams, ",")+" := "+d.Show)
+		bodies[d.Name] = append(bodies[d.Name], d.Kind+" "+strings.Join(d.TypeParams, ",")+" := "+d.Show+" "+d.Theorem)
 	}
 	for _, b := range bodies {
 		sort.Strings(b)
 	}
 	// kinds of names
 	kindOf := map[string]string{}
+	shapeOf := map[string]string{} // finer kinds, for the coverage table only
 	for name, us := range si.expected {
 		kindOf[name] = p.Units[us[0]].Kind
+		shapeOf[name] = si.shapes[us[0]]
+	}
+	shape := func(n string) string {
+		if s, ok := shapeOf[n]; ok {
+			return s
+		}
+		return kindOf[n]
 	}
 	for _, d := range defs {
 		if _, ok := kindOf[d.Name]; !ok {
@@ -593,6 +666,8 @@ func c04Judge(r *core.Run, ds *declSet, si *setInfo, j *c04Job, defs []vdef, vte
 					order = relOrder(fileRank, pos, ud, td)
 				}
 				r.Distinct(tk + " × " + kind + " × " + order)
+				cells.add("cell/target " + shape(m.Name) + " × " + kind + " × " + order)
+				cells.add("cell_by_user/" + shape(d.Name) + " mentions " + shape(m.Name) + " × " + kind)
 				if m.Name == d.Name {
 					if d.IsRec {
 						violate("self-call-through-global",
@@ -631,7 +706,20 @@ func c04Judge(r *core.Run, ds *declSet, si *setInfo, j *c04Job, defs []vdef, vte
 						fmt.Sprintf("Definition %s (line %d) mentions %s, a later spec of the same grouped declaration, defined only at line %d", d.Name, d.Line, m.Name, defs[first].Line),
 						map[string]interface{}{"definition": d.Name, "mentions": m.Name, "reference_kind": kind})
 				default:
-					violate("use-before-def-"+kind,
+					// name the input class more closely where the Go side shows one of the generated dimensions
+					qual := ""
+					if tk == "alias" {
+						qual = "-of-type-alias"
+					}
+					if tu >= 0 {
+						for _, n := range sortedKeys(p.ImportedMentions[tu]) {
+							if _, local := si.expected[n]; local {
+								qual += "/target-mentions-imported-namesake-of-a-local-declaration"
+								break
+							}
+						}
+					}
+					violate("use-before-def-"+kind+qual,
 						fmt.Sprintf("Definition %s (line %d) mentions same-package %s %s through a %s reference, but %s is defined only later (line %d); Go declaration order: %s",
 							d.Name, d.Line, tk, m.Name, kind, m.Name, defs[first].Line, order),
 						map[string]interface{}{"definition": d.Name, "mentions": m.Name, "reference_kind": kind, "relative_order": order})
@@ -702,6 +790,9 @@ func c04ProbeAtoms(r *core.Run, bin string, directed []*declSet) map[string]bool
 		j := &c04Job{set: ds, rel: ds.ID + "_probe", lay: layout{Files: []layoutFile{{Name: "m_f0.go", Units: seq(len(ds.Units))}}}}
 		writePkg(dir, j.rel, ds.render(j.lay))
 		js = append(js, j)
+	}
+	for name, files := range c04HelperPkgs {
+		writePkg(dir, name, files)
 	}
 	res := runGoose(bin, dir, filepath.Join(dir, "out"), 5*time.Minute, nil, nil, "./...")
 	r.Count("goose_invocations", 1)
